@@ -1,4 +1,4 @@
-import Zrnt.Beacon.Spec.Epoch
+import Zrnt.Beacon.Spec.SlotsPure
 /-!
 # Specification layer `S`: `process_slot(s)` and the fork upgrades `upgrade_to_*`
 
@@ -17,15 +17,10 @@ def process_slot (cfg : Config) (roots : RootOracle) (s : State) : SM State := d
   -- Cache state root
   let some previous_state_root := roots s.slot | throw (.oracle s!"state root for slot {s.slot} not supplied")
   if cfg.SLOTS_PER_HISTORICAL_ROOT = 0 then invalid "division by zero"
-  let state_roots ← setIdx s.state_roots (s.slot % cfg.SLOTS_PER_HISTORICAL_ROOT) previous_state_root "state_roots"
-  let mut s := { s with state_roots := state_roots }
-  -- Cache latest block header state root
-  if s.latest_block_header.state_root = ZERO32 then
-    s := { s with latest_block_header := { s.latest_block_header with state_root := previous_state_root } }
-  -- Cache block root
-  let previous_block_root := hash_tree_root_header s.latest_block_header
-  let block_roots ← setIdx s.block_roots (s.slot % cfg.SLOTS_PER_HISTORICAL_ROOT) previous_block_root "block_roots"
-  pure { s with block_roots := block_roots }
+  let _ ← idx s.state_roots (s.slot % cfg.SLOTS_PER_HISTORICAL_ROOT) "state_roots"
+  let _ ← idx s.block_roots (s.slot % cfg.SLOTS_PER_HISTORICAL_ROOT) "block_roots"
+  -- Cache latest block header state root; cache block root
+  pure (process_slot_pure cfg previous_state_root s)
 
 /-! ## Upgrades -/
 
@@ -73,6 +68,19 @@ def translate_participation (cfg : Config) (s : State) (pending_attestations : L
     s := { s with previous_epoch_participation := epoch_participation }
   pure s
 
+/-- the pending attestations as `translate_participation` sees them on the (altair) state `s` -/
+def resolve_flag_atts (cfg : Config) (s : State) (pending : List PendingAttestation) : SM (List FlagAtt) :=
+  pending.mapM fun a => do
+    let justified_checkpoint :=
+      if a.data.target.epoch = get_current_epoch cfg s then s.current_justified_checkpoint else s.previous_justified_checkpoint
+    let source_ok := decide (a.data.source = justified_checkpoint)
+    let target_ok : Bool ← if source_ok then do
+        pure (decide (a.data.target.root = (← get_block_root cfg s a.data.target.epoch))) else pure false
+    let head_ok : Bool ← if source_ok && target_ok then do
+        pure (decide (a.data.beacon_block_root = (← get_block_root_at_slot cfg s a.data.slot))) else pure false
+    let indices ← get_attesting_indices cfg s a.data a.aggregation_bits
+    pure { indices := indices, inclusion_delay := a.inclusion_delay, source_ok := source_ok, target_ok := target_ok, head_ok := head_ok }
+
 def upgrade_to_altair (cfg : Config) (agg : AggOracle) (pre : State) : SM State := do
   let epoch := get_current_epoch cfg pre
   let post : State := { pre with
@@ -91,44 +99,24 @@ def upgrade_to_altair (cfg : Config) (agg : AggOracle) (pre : State) : SM State 
   let c ← get_next_sync_committee cfg agg post
   let post := { post with current_sync_committee := some c }
   let n ← get_next_sync_committee cfg agg post
-  pure { post with next_sync_committee := some n }
+  let post := { post with next_sync_committee := some n }
+  -- the theorem-facing pure form must agree
+  let flagAtts ← resolve_flag_atts cfg (upgrade_to_altair_pure cfg ⟨[], none⟩ pre) pre.previous_epoch_attestations
+  crossCheck post (upgrade_to_altair_pure cfg ⟨flagAtts, some c⟩ pre) "upgrade_to_altair"
+  pure post
 
-/-- `ExecutionPayloadHeader()` of bellatrix -/
-def defaultPayloadHeader (cfg : Config) : ExecutionPayloadHeader :=
-  { parent_hash := ZERO32, fee_recipient := ⟨Array.replicate 20 0⟩, state_root := ZERO32, receipts_root := ZERO32,
-    logs_bloom := ⟨Array.replicate cfg.BYTES_PER_LOGS_BLOOM 0⟩, prev_randao := ZERO32, block_number := 0, gas_limit := 0,
-    gas_used := 0, timestamp := 0, extra_data := ByteArray.empty, base_fee_per_gas := 0, block_hash := ZERO32,
-    transactions_root := ZERO32, withdrawals_root := none, blob_gas_used := none, excess_blob_gas := none }
-
-def upgrade_to_bellatrix (cfg : Config) (pre : State) : SM State := do
-  let epoch := get_current_epoch cfg pre
-  pure { pre with
-    fork := .bellatrix
-    fork_rec := ⟨pre.fork_rec.current_version, cfg.BELLATRIX_FORK_VERSION, epoch⟩
-    latest_execution_payload_header := some (defaultPayloadHeader cfg) }
+def upgrade_to_bellatrix (cfg : Config) (pre : State) : SM State :=
+  pure (upgrade_to_bellatrix_pure cfg pre)
 
 def upgrade_to_capella (cfg : Config) (pre : State) : SM State := do
-  let epoch := get_current_epoch cfg pre
-  let some h := pre.latest_execution_payload_header | invalid "no payload header"
+  let some _ := pre.latest_execution_payload_header | invalid "no payload header"
   -- all bellatrix header fields are carried over; withdrawals_root=Root()  # [New in Capella]
-  let latest_execution_payload_header := { h with withdrawals_root := some ZERO32 }
-  pure { pre with
-    fork := .capella
-    fork_rec := ⟨pre.fork_rec.current_version, cfg.CAPELLA_FORK_VERSION, epoch⟩
-    latest_execution_payload_header := some latest_execution_payload_header
-    next_withdrawal_index := 0  -- [New in Capella]
-    next_withdrawal_validator_index := 0  -- [New in Capella]
-    historical_summaries := [] }  -- [New in Capella]
+  pure (upgrade_to_capella_pure cfg pre)
 
 def upgrade_to_deneb (cfg : Config) (pre : State) : SM State := do
-  let epoch := get_current_epoch cfg pre
-  let some h := pre.latest_execution_payload_header | invalid "no payload header"
+  let some _ := pre.latest_execution_payload_header | invalid "no payload header"
   -- all capella header fields are carried over; blob_gas_used=0, excess_blob_gas=0  # [New in Deneb:EIP4844]
-  let latest_execution_payload_header := { h with blob_gas_used := some 0, excess_blob_gas := some 0 }
-  pure { pre with
-    fork := .deneb
-    fork_rec := ⟨pre.fork_rec.current_version, cfg.DENEB_FORK_VERSION, epoch⟩
-    latest_execution_payload_header := some latest_execution_payload_header }
+  pure (upgrade_to_deneb_pure cfg pre)
 
 /-- The fork documents: "the upgrade occurs after the completion of the inner loop of `process_slots` that
 sets `state.slot` equal to `X_FORK_EPOCH * SLOTS_PER_EPOCH`". Applied in fork order, so several forks
